@@ -41,7 +41,7 @@ def la_histories(seed, thorough):
     rng = random.Random(seed)
     ok = lambda po, kinds: [dict(mode="ok", po=po, kinds=list(kinds))]
     peers = [("honest", [], 2), ("honest", [], 0), ("honest", [], -1),
-             ("evil", ok(3, "V"), 0), ("evil", ok(3, "R"), 0), ("evil", ok(3, "VR"), 0), ("evil", ok(3, "RV"), 0),
+             ("evil", ok(1, "V"), 0), ("evil", ok(3, "R"), 0), ("evil", ok(3, "VR"), 0), ("evil", ok(3, "RV"), 0),
              ("evil", ok(3, "F"), 0), ("evil", ok(2, "VV"), 0), ("evil", ok(0, ""), 0)]
     pres = [[True, False], [False, True]]
     adv2s = pats(1, 1)
@@ -74,17 +74,34 @@ def run(ck):
     d = ck.dir
     pool = ThreadPoolExecutor(max_workers=6)
     w = 3 if not thorough else 4
-    jobs = {
-        "serve": pool.submit(vlib.tlc, SPECDIR, "MCCertExchange", "MCCertExchange%s.cfg" % sfx, os.path.join(d, "tlc-design-serve"), w, 600),
-        "serve-mutant": pool.submit(vlib.tlc, SPECDIR, "MCCertExchange", "MCCertExchangeMutant.cfg", os.path.join(d, "tlc-mutant-serve"), 2, 300),
-        "serve-emit": pool.submit(vlib.tlc, SPECDIR, "MCCertExchange", "MCCertExchangeEmit%s.cfg" % sfx, os.path.join(d, "tlc-emit-serve"), 2, 600),
-        "poller": pool.submit(vlib.tlc, SPECDIR, "MCPoller", "MCPoller%s.cfg" % sfx, os.path.join(d, "tlc-design-poller"), w + 2, 1500),
-        "poller-mutant": pool.submit(vlib.tlc, SPECDIR, "MCPoller", "MCPollerMutant.cfg", os.path.join(d, "tlc-mutant-poller"), 2, 300),
-        "build": pool.submit(vlib.build_driver, "certexchange", d),
-    }
+    jobs = {}
+    jobs["build"] = pool.submit(vlib.build_driver, "certexchange", d)
+    # stores that advance during a call: every interleaving of Put with the reads of a request / of local
+    # advances with CatchUp and Poll; named deviations must produce counterexamples (below)
+    jobs["la"] = pool.submit(vlib.tlc, SPECDIR, "MCPollerLA", "MCPollerLA%s.cfg" % sfx, os.path.join(d, "tlc-design-la"), w, 1500)
+    jobs["poller"] = pool.submit(vlib.tlc, SPECDIR, "MCPoller", "MCPoller%s.cfg" % sfx, os.path.join(d, "tlc-design-poller"), w + 2, 1500)
+    jobs["conc"] = pool.submit(vlib.tlc, SPECDIR, "MCCertExchangeConc", "MCCertExchangeConc%s.cfg" % sfx, os.path.join(d, "tlc-design-conc"), 2, 900)
+    jobs["serve"] = pool.submit(vlib.tlc, SPECDIR, "MCCertExchange", "MCCertExchange%s.cfg" % sfx, os.path.join(d, "tlc-design-serve"), w, 600)
+    jobs["serve-emit"] = pool.submit(vlib.tlc, SPECDIR, "MCCertExchange", "MCCertExchangeEmit%s.cfg" % sfx, os.path.join(d, "tlc-emit-serve"), 2, 600)
+    jobs["serve-mutant"] = pool.submit(vlib.tlc, SPECDIR, "MCCertExchange", "MCCertExchangeMutant.cfg", os.path.join(d, "tlc-mutant-serve"), 2, 300)
+    jobs["poller-mutant"] = pool.submit(vlib.tlc, SPECDIR, "MCPoller", "MCPollerMutant.cfg", os.path.join(d, "tlc-mutant-poller"), 2, 300)
+    conc_mut = [("resample", "InvBelowPending"), ("cliphigh", "InvBelowPending")] + ([("noclip", "InvBelowPending")] if thorough else [])
+    la_mut = [("lastdelta-stored", "InvStoredOnlyValid"), ("nextplus1", "InvTableOfNext")] + \
+             ([("lastdelta", "InvTableOfNext"), ("lastdelta-status", "InvClassifies"), ("applylast", "InvTableOfNext")] if thorough else [])
+    for dev, _ in conc_mut:
+        jobs["conc-" + dev] = pool.submit(vlib.tlc, SPECDIR, "MCCertExchangeConc", "MCCertExchangeConc-%s.cfg" % dev, os.path.join(d, "tlc-mutant-conc-" + dev), 1, 600)
+    for dev, _ in la_mut:
+        jobs["la-" + dev] = pool.submit(vlib.tlc, SPECDIR, "MCPollerLA", "MCPollerLA-%s.cfg" % dev, os.path.join(d, "tlc-mutant-la-" + dev), 1, 600)
     res = {k: f.result() for k, f in jobs.items()}
-    for k in ("serve", "serve-emit", "poller"):
+    for k in ("serve", "serve-emit", "poller", "conc", "la"):
         ck.require_tlc_ok(k, res[k])
+    ck.add_tlc("design:MCCertExchangeConc%s.cfg" % sfx, res["conc"], note="one request as header / table / bound / per-certificate reads with PutWrite, PutCommit interleaved between any two: response clauses + interleaving-irrelevance lemma")
+    ck.add_tlc("design:MCPollerLA%s.cfg" % sfx, res["la"], note="every chain pattern x every interleaving of LocalAdv(1..3), CatchUp, Poll(script, in-flight advance): table of NextInstance, stored only valid, classification")
+    for pre, muts in (("conc-", conc_mut), ("la-", la_mut)):
+        for dev, inv in muts:
+            r = res[pre + dev]
+            if r.violated != inv:
+                raise Inconclusive("non-vacuity: deviation %s%s did not violate %s (violated=%s error=%s)" % (pre, dev, inv, r.violated, r.error))
     ck.add_tlc("design:MCCertExchange%s.cfg" % sfx, res["serve"], note="every (store, first, limit, includePowerTable): response clauses as invariants")
     ck.add_tlc("design:MCPoller%s.cfg" % sfx, res["poller"], note="every responder script: stored only valid, advance by valid prefix, status")
     for k, inv in (("serve-mutant", "InvAtMostLimit"), ("poller-mutant", "InvStoredOnlyValid")):
@@ -97,16 +114,20 @@ def run(ck):
     reqf, scrf = os.path.join(d, "reqs.ndjson"), os.path.join(d, "scripts.ndjson")
     vlib.write_ndjson(reqf, reqs)
     vlib.write_ndjson(scrf, scripts)
+    hists = la_histories(ck.seed, thorough)
+    histf = os.path.join(d, "hist.ndjson")
+    vlib.write_ndjson(histf, hists)
     binary = res["build"]
 
     seeds = [ck.seed]
     problems = []
     for s in seeds:
         st, pt = os.path.join(d, "serve-%d.ndjson" % s), os.path.join(d, "poller-%d.ndjson" % s)
-        env = dict(VERIF_REQS=reqf, VERIF_SCRIPTS=scrf, VERIF_SEED=str(s), GOLOG_LOG_LEVEL="fatal")
-        a = pool.submit(vlib.run_driver, binary, "TestServe", dict(env, VERIF_OUT=st), 1500)
-        b = pool.submit(vlib.run_driver, binary, "TestPoller", dict(env, VERIF_OUT=pt), 3000)
-        for f, name in ((a, "TestServe"), (b, "TestPoller")):
+        sct, lat = os.path.join(d, "serveconc-%d.ndjson" % s), os.path.join(d, "pollerla-%d.ndjson" % s)
+        env = dict(VERIF_REQS=reqf, VERIF_SCRIPTS=scrf, VERIF_HIST=histf, VERIF_SEED=str(s), VERIF_TIER=ck.tier, GOLOG_LOG_LEVEL="fatal")
+        runs = [("TestServe", st, 1500), ("TestPoller", pt, 3000), ("TestServeConc", sct, 1500), ("TestPollerLA", lat, 3000)]
+        futs = [(name, pool.submit(vlib.run_driver, binary, name, dict(env, VERIF_OUT=out), to)) for name, out, to in runs]
+        for name, f in futs:
             rc, out = f.result()
             if rc != 0:
                 raise Inconclusive("driver %s failed:\n%s" % (name, out[-3000:]))
@@ -114,25 +135,29 @@ def run(ck):
         def val(mod, trace, name):
             try:
                 return vlib.validate_trace(ck, SPECDIR, mod, mod + ".cfg", trace, name, timeout=2400,
-                                           count_traces=lambda ev: sum(1 for e in ev if e["ev"] in ("Store", "Reset")))
+                                           count_traces=lambda ev: sum(1 for e in ev if e["ev"] in ("Store", "Reset", "ResetLA")))
             except Inconclusive as e:
                 return e
-        va = pool.submit(val, "CertExchangeTrace", st, "serve-seed%d" % s)
-        vb = pool.submit(val, "PollerTrace", pt, "poller-seed%d" % s)
-        for v in (va.result(), vb.result()):
+        vs = [pool.submit(val, "CertExchangeTrace", st, "serve-seed%d" % s), pool.submit(val, "PollerTrace", pt, "poller-seed%d" % s),
+              pool.submit(val, "CertExchangeTrace", sct, "serveconc-seed%d" % s), pool.submit(val, "PollerTrace", lat, "pollerla-seed%d" % s)]
+        for v in [f.result() for f in vs]:
             if isinstance(v, Inconclusive):
                 problems.append(v)
         if not ck.violations:
             vacuity(ck, vlib.read_ndjson(st), vlib.read_ndjson(pt), s)
+            vacuity_conc(ck, vlib.read_ndjson(sct), vlib.read_ndjson(lat), s)
     if problems and not ck.violations:
         raise problems[0]
-    ck.cov["distinct_nontrivial"] = len(reqs) * 2 + len(scripts)
-    ck.cov["rule"] = ("distinct (store, request) pairs x {real Client, raw stream reader} plus distinct responder scripts played to the real Poller; "
+    ck.cov["distinct_nontrivial"] = len(reqs) * 2 + len(scripts) + ck.cov.get("hooked_requests", 0) + len(hists)
+    ck.cov["rule"] = ("distinct (store, request) pairs x {real Client, raw stream reader} plus distinct responder scripts played to the real Poller, "
+                      "plus distinct (store, request, datastore read at which 1..2 Puts land) triples and distinct local-advance histories of the polling node; "
                       "each executed on the real code and judged by TLC against the spec")
     ck.assumptions += ["mocknet streams behave like libp2p streams (ordered bytes, reset, half-close)",
                        "sim/signing.FakeBackend signatures (real verification logic, fake crypto)",
                        "request values >= 2^30 are logged as 2^30; the spec is insensitive above pending+1 / cap+1",
-                       "no concurrent local Put into the poller's store during a Poll (CatchUp inside Poll is a no-op)"]
+                       "local Puts into the poller's store land between polls or while the first request of a Poll is in flight (not between the certificates of one response)",
+                       "hook-driven Puts are whole certstore.Put calls placed at datastore reads; a Put landing between two in-memory reads (Latest()) with no datastore "
+                       "read in between is only reached by the free-running writer (timing dependent)"]
 
 
 def vacuity(ck, serve, poll, s):
@@ -175,6 +200,51 @@ def vacuity(ck, serve, poll, s):
     ck.sample(dict(trace="poller-seed%d" % s, events=[e for e in poll if e["ev"] == "Poll" and e["status"] == "Illegal"][:1]))
 
 
+def vacuity_conc(ck, sc, la, s):
+    kinds = collections.Counter()
+    cur = None
+    for e in sc:
+        if e["ev"] == "Req":
+            cur = e
+        elif e["ev"] == "Resp":
+            free = cur["via"].endswith("-free")
+            kinds["resp-free" if free else "resp-hook"] += 1
+            if e["fired"]:
+                kinds["hook-fired"] += 1
+                if cur["pt"]:
+                    kinds["hook-fired-pt"] += 1
+                if e["ok"] and e["certs"] and cur["first"] + len(e["certs"]) == e["pending"]:
+                    kinds["hook-fired-reaching-pending"] += 1      # the range reached the advertised pending instance while the store was ahead of it
+            if free and e["ok"] and e["certs"]:
+                kinds["free-certs"] += 1
+        else:
+            kinds[e["ev"]] += 1
+    for e in la:
+        if e["ev"] == "PollLA":
+            ks = "".join(i["kind"] for r in e["resps"] for i in r["items"]) if e["type"] == "concrete" else "honest"
+            kinds["la-%s-%s" % (e["type"], e["status"])] += 1
+            if "R" in ks:
+                kinds["la-retired"] += 1
+            if e["la"]:
+                kinds["la-inflight"] += 1
+            if e["next0"] + 2 <= len(e["store0"]):
+                kinds["la-poll-after-advance>=2"] += 1
+        else:
+            kinds[e["ev"]] += 1
+            if e["ev"] == "LocalAdvance" and len(e["deltas"]) >= 2 and any(e["deltas"][:-1]) and not e["deltas"][-1]:
+                kinds["la-advance-change-then-none"] += 1
+    ck.cov.setdefault("event_counts", {})["conc-seed%d" % s] = dict(kinds)
+    ck.cov["hooked_requests"] = kinds["hook-fired"]
+    need = ["PutBegin", "PutEnd", "hook-fired", "hook-fired-pt", "hook-fired-reaching-pending", "resp-free", "free-certs",
+            "la-honest-Hit", "la-concrete-Illegal", "la-concrete-Hit", "la-retired", "la-inflight", "la-poll-after-advance>=2",
+            "la-advance-change-then-none", "CatchUp", "LocalAdvance"]
+    for n in need:
+        if not kinds.get(n):
+            raise Inconclusive("vacuous driver run: no %s event" % n)
+    ck.sample(dict(trace="serveconc-seed%d" % s, events=[e for e in sc if e["ev"] in ("Req", "PutBegin", "Resp")][-3:]))
+    ck.sample(dict(trace="pollerla-seed%d" % s, events=[e for e in la if e["ev"] == "PollLA" and e["status"] == "Illegal"][:1]))
+
+
 def replay(ck, obj):
     """re-validate the recorded trace a violation file points at (python3 tools/check.py C16 --replay <file>)"""
     trace = obj["replay"]["trace"]
@@ -189,9 +259,16 @@ MANIFEST = dict(
           "script (<= 3 (4) items over valid/stale/duplicate/gap/forged/wrong-delta/oversize/truncated, any advertised pending instance, reset, second response) stores only "
           "validated certificates, advances by the valid prefix and classifies the peer. The same requests and scripts are executed on the real Server (read through the real "
           "Client and through a raw stream reader that compares content hashes of the bytes written with the stored bytes and counts the certificates written) and on the real "
-          "polling.Poller (scripted malicious stream handler, real honest Server); TLC validates every recorded call against CertExchangeTrace.tla / PollerTrace.tla."),
+          "polling.Poller (scripted malicious stream handler, real honest Server); TLC validates every recorded call against CertExchangeTrace.tla / PollerTrace.tla. "
+          "Stores that advance during a call: MCCertExchangeConc.tla splits the request into its reads (pending instance for the header, power table, range bound, one read per "
+          "certificate) with certstore.Put (datastore write, then Latest pointer) interleaved between any two, and checks the response clauses plus the lemma that only the header "
+          "value matters; MCPollerLA.tla checks the node (poller + own store) under every interleaving of local advances (1..3 certificates, every pattern of power-table change), "
+          "CatchUp and Poll (incl. a responder signing with the retired committee's keys, and local advances while a request is in flight): the poller's table is the table of "
+          "NextInstance, only valid certificates are stored, classification. The driver serves requests on a datastore wrapper that performs 1..2 Puts inside the k-th read of the "
+          "request for every k, and against a free-running writer; and advances the polling node's own store before / between / during polls of honest and malicious peers."),
     note=("Trusted: TLC, the NDJSON recorder and the script-to-bytes concretisation in harness/drivers/certexchange (no oracle in Go), mocknet, FakeBackend. "
           "Bounded: stores <= 6/10 certificates plus one of 260 for the cap; responder scripts <= 2 responses; values >= 2^30 abstracted to one class; "
-          "no concurrent local store writes during a Poll."),
+          "concurrent store advance: stores <= 3 (5) + 2 (3) Puts in the model, 7 (11) small stores in the driver; local advances of <= 3 certificates, chains <= 6 (7) instances in the model; "
+          "local Puts land between polls or while the first request is in flight; Puts between two in-memory reads without a datastore read in between are reached only by the free-running writer."),
     technique="TLA+ specs model-checked with TLC; TLC-enumerated inputs executed on the real server/client/poller; recorded calls validated by TLC against the spec",
     design_ref="DESIGN.md section 6 C16")
